@@ -1,8 +1,9 @@
 import VlsModel.Drv.Common
-/- Line-protocol models serving property C05 (none yet). -/
+import VlsModel.Drv.Policy
+/- Line-protocol models serving property C05. -/
 namespace VlsModel.Drv.C05
 open VlsModel.Drv
 
-def models : List (String × Model) := []
+def models : List (String × Model) := [ ("policy", Policy.model) ]
 
 end VlsModel.Drv.C05
